@@ -89,6 +89,7 @@ type c02Case struct {
 	ParseH   bool `json:"parsed_header"`
 	Input    string `json:"input_hex"`
 	Class    string `json:"class"`
+	Warm     bool   `json:"warm"` // the receiver's key object has just accepted the genuine message (history on one SA object)
 	Genuine  []string `json:"genuine_hex"` // the genuine messages this input must differ from
 }
 
@@ -214,6 +215,10 @@ func c02Config(c *engine.Ctx, name string, m ref.Msg, mi, si int, senderI bool) 
 		}
 		engine.Begin(func() interface{} { x := cs; x.Input = engine.Hex(in); x.Genuine = hexAll(genuine); return x })
 		evalC02(c, cs, in, genuine)
+		if cs.RSuite == cs.Suite && cs.RPattern == cs.Pattern && cs.RRoleI != cs.SenderI && class != "genuine" {
+			cs.Warm = true
+			evalC02(c, cs, in, genuine)
+		}
 	}
 	icv := ks.Suite.Integ.OutLen
 
@@ -338,6 +343,16 @@ func evalC02(c *engine.Ctx, cs c02Case, in []byte, genuine [][]byte) {
 		c.Violate("sa-construction", errStr(err), cs)
 		return
 	}
+	if cs.Warm && len(genuine) > 0 {
+		// the same key object first accepts the genuine message, as a live SA would
+		var werr error
+		if pi := engine.Catch(func() { _, werr = ike.DecodeDecrypt(genuine[0], nil, sa, roleOf(cs.RRoleI)) }); pi != nil || werr != nil {
+			c.Violate("genuine-rejected", fmt.Sprintf("%s: warm-up with the genuine message failed: %v %v", cs.Name, pi, werr), cs)
+			return
+		}
+		log.ev = nil
+		c.Transitions++
+	}
 	isGenuine := false
 	sameKeys := cs.RSuite == cs.Suite && cs.RPattern == cs.Pattern && cs.RRoleI != cs.SenderI
 	for _, g := range genuine {
@@ -398,18 +413,18 @@ func evalC02(c *engine.Ctx, cs c02Case, in []byte, genuine [][]byte) {
 		return
 	}
 	if log.has(".Decrypt") {
-		c.Violate("decrypt-before-or-without-verification/"+cs.Class, fmt.Sprintf("%s under %v: ciphertext of a non-genuine input reached the cipher; events %v", cs.Name, rks.Suite, log.ev), full())
+		c.Violate("decrypt-before-or-without-verification/"+cs.Class+warmTag(cs), fmt.Sprintf("%s under %v: ciphertext of a non-genuine input reached the cipher; events %v", cs.Name, rks.Suite, log.ev), full())
 		return
 	}
 	if err == nil {
-		c.Violate("accepted/"+cs.Class, fmt.Sprintf("%s under %v (receiver pattern %d, initiator=%v, parsed header=%v): non-genuine input of %d octets unprotected without error", cs.Name, rks.Suite, cs.RPattern, cs.RRoleI, cs.ParseH, len(in)), full())
+		c.Violate("accepted/"+cs.Class+warmTag(cs), fmt.Sprintf("%s under %v (receiver pattern %d, initiator=%v, parsed header=%v, warm=%v): non-genuine input of %d octets unprotected without error", cs.Name, rks.Suite, cs.RPattern, cs.RRoleI, cs.ParseH, cs.Warm, len(in)), full())
 		return
 	}
 	c.Count("rejected/"+cs.Class, 1)
 	if log.has(".Sum") {
 		c.Distinct(engine.Hash64(in, []byte{byte(cs.RSuite), byte(cs.RPattern)}))
 	}
-	if c.State(engine.Hash64(in, []byte{byte(cs.RSuite), byte(cs.RPattern), b2i(cs.RRoleI), b2i(cs.ParseH)})) {
+	if c.State(engine.Hash64(in, []byte{byte(cs.RSuite), byte(cs.RPattern), b2i(cs.RRoleI), b2i(cs.ParseH), b2i(cs.Warm)})) {
 		c.States++
 	}
 	c.Sample(cs.Class, map[string]interface{}{"name": cs.Name, "suite": rks.Suite.String(), "events": log.ev, "input": engine.Hex(trunc(in, 64)), "error": errStr(err)})
@@ -420,4 +435,11 @@ func b2i(b bool) byte {
 		return 1
 	}
 	return 0
+}
+
+func warmTag(cs c02Case) string {
+	if cs.Warm {
+		return "/after-genuine-on-same-sa"
+	}
+	return ""
 }
